@@ -38,7 +38,7 @@ def run(chk: Check):
                 "or via cached/transient calcs) under simulate / assign / auto-update toggle / update; non-trivial = "
                 "a simulate with auto-update off on a model where a child depends on a parent through a cached calc")
     chk.trusted += ["integer coding of draws in harness/sim_driver.py (exact in float32)"]
-    chk.mc("MC_Simulate.tla", CFG.format(which="A", slots=0 if chk.quick else 1, fs="TRUE"), tag="graphA",
+    chk.mc("MC_Simulate.tla", CFG.format(which="A", slots=0, fs="TRUE"), tag="graphA",
            expect_actions=["DoSimulate", "DoAssign", "DoSetAuto", "DoUpdate", "DoTargets"], timeout=1500,
            what="graph A (x -> cached calc -> y), all skip sets, both auto settings, all histories")
     if not chk.quick:
